@@ -301,11 +301,14 @@ StrPool == << S(<<>>), S(<<97>>), S(<<72, 105, 32, 33>>), S(<<34, 92, 10, 126>>)
 BytesPool == << Bv(<<>>), Bv(<<0, 255>>), Bv(<<5, 1, 2>>) >>
 BoolPool == << <<"bool", TRUE>>, <<"bool", FALSE>> >>
 AddrPool == << <<"a", <<0, 0>> \o Pay(20, 1, 7, 9), <<>>>>,                           \* tz1
-               <<"a", <<1>> \o Pay(20, 200, 3, 77) \o <<0>>, <<97, 98, 99>>>>,       \* KT1 .. %abc
+               <<"a", <<1>> \o Pay(20, 200, 3, 77) \o <<0>>, <<120, 121, 122>>>>,    \* KT1 .. %xyz
+               <<"a", <<1>> \o Pay(20, 200, 3, 77) \o <<0>>, <<>>>>,                 \* the same KT1, no entrypoint: sorts before %xyz both by binary form and by name
+                                                                                     \* (names below "default" are avoided: the protocol compares names, the binary form omits "default")
                <<"a", <<3>> \o Pay(20, 0, 0, 0) \o <<0>>, <<>>>>,                      \* sr1
                <<"a", <<0, 2>> \o Pay(20, 0, 255, 0), <<120>>>>,                      \* tz3 .. %x
                <<"a", <<0, 3>> \o Pay(20, 255, 1, 255), <<>>>>,                       \* tz4
-               <<"a", <<0, 1>> \o Pay(20, 4, 4, 4), <<>>>> >>                         \* tz2
+               <<"a", <<0, 1>> \o Pay(20, 4, 4, 4), <<>>>>,                          \* tz2
+               <<"a", <<1>> \o Pay(20, 200, 3, 77) \o <<0>>, [j \in 1..31 |-> 97 + (j % 26)]>> >>   \* KT1 with an entrypoint name of the maximal length (31)
 KhPool == << <<"o", <<0>> \o Pay(20, 0, 5, 6)>>,         \* tz1, digest starting 00
              <<"o", <<1>> \o Pay(20, 9, 9, 0)>>,         \* tz2, digest ending 00
              <<"o", <<3>> \o Pay(20, 255, 255, 255)>>,   \* tz4
